@@ -529,7 +529,7 @@ func init() {
 		Assumptions: []string{"instants outside [1970, 2286) are excluded (the 10-digit seconds field cannot hold them)", "object length 0 does not occur", "profiles are those the profiler can produce"},
 		Gen: func(tier string, seed int64) []fw.Case {
 			l := fw.NewCaseList("C06", tier, seed)
-			per := l.N(40, 400)
+			per := l.N(40, 2000)
 			for _, k := range []string{"commit", "table", "block", "profile"} {
 				for i := 0; i < 16; i++ {
 					l.Add(k, c06Params{Kind: k, Count: per}, 0)
